@@ -403,6 +403,28 @@ func runC20(w *World, tier string, advMode string) (bool, interface{}) {
 		c2.L.PausedOp[newIdx[vi]] = true
 		other := newIdx[(vi+1)%n]
 		w.Advance(2e9)
+		if w.Tape.Bool(1, 4, "reinitOfAnotherRoundWaiting") {
+			// the message waiting for the victim is itself a reinitialisation - of another round
+			// (the same log under another id, as for a second key set on the same board): its replay
+			// saves a round after every embedded message while the request saves the first round
+			idB := freshRoundID(w, 91)
+			emb := make([]storage.Message, 0, len(reDKG.Messages))
+			for _, m := range reDKG.Messages {
+				x := m
+				x.DkgRoundID = idB
+				emb = append(emb, x)
+			}
+			w.Board.Append(other, reinitEnvelope(w, other, idB, reDKG.Threshold, reDKG.Participants, emb))
+			w.Stats.Fault("reinit-of-another-round-waiting")
+			// the operation the tick creates embeds the operations of the replay, which carry the
+			// time of that replay: its identifier differs between executions of the same order
+			maskOpIDs = true
+			defer func() { maskOpIDs = false }()
+			if w.Board.Len()-int(v.Offset()) < 1 {
+				return false, "nothing waiting for the victim"
+			}
+			return raceAndJudge(w, v, &raceSpec{kind: "submit:reinit_dkg", method: "POST", path: "/handleProcessedOperationJSON", body: prepared, msgs: 1}, tier, n, t)
+		}
 		if w.Tape.Bool(1, 2, "sameRoundMessageWaiting") {
 			// a peer that has already finished its own reinitialisation proposes a batch for the
 			// SAME round: the victim's tick applies a message of the very round the request updates
